@@ -550,3 +550,345 @@ Example dict_limits :
   dict_read (table_ctxt [12; 15]) cff_max_operands = Err BadValue /\
   dict_read (table_ctxt [30; 18; 52]) cff_max_operands = Err Eof.
 Proof. vm_compute. repeat split; reflexivity. Qed.
+
+(* ================================================================================================
+   Composite glyphs (Model/Composite.v, Proofs/CompositeProofs.v, Proofs/CompositeAgree.v)
+
+   Vocabulary.  A component `ccomp` = flags, glyph index, two arguments tagged with their Rust variant
+   (AU8 / AI8 / AU16 / AI16), optional scale (raw F2Dot14).  `cg_ok g` is the round-trip domain: every
+   component holds only defined flag bits, a u16 glyph index, arguments of the variant the flags
+   select (ARG_1_AND_2_ARE_WORDS, ARGS_ARE_XY_VALUES) with values of that type, the scale form of the
+   first scale flag set (none when none is set); MORE_COMPONENTS is set on every component but the
+   last; there is at least one component; the bounding box is four i16.  The writer normalises
+   NOTHING of this: it writes the flag word verbatim and each argument by its variant, so a value
+   outside `cg_ok` is written as it is and read back differently (examples below).  The one
+   normalisation is `cg_norm`: instructions are dropped when no component carries
+   WE_HAVE_INSTRUCTIONS.  `any_instr cs` = some component carries that flag. *)
+From AV Require Import Gen.GlyfConsts Model.Composite Proofs.CompositeProofs Proofs.CompositeAgree.
+
+Theorem C15_composite_roundtrip : forall m g b rest c,
+  cg_ok g -> cglyph_write g = Ok b -> cgood c -> at_bytes c (b ++ rest) ->
+  exists c', glyph_read_full m c = Ok (GComposite (cg_norm g), c') /\ advanced c c' rest.
+Proof. exact composite_roundtrip. Qed.
+Print Assumptions C15_composite_roundtrip.
+
+(* instructions are written iff SOME component carries WE_HAVE_INSTRUCTIONS (the writer's `|=` over
+   all components); an instruction count beyond 16 bits is refused, never truncated *)
+Theorem C15_composite_instructions_iff_flagged : forall g,
+  let body := write_prim PI16 (-1) ++ write_items false bounding_box_write (cg_bbox g)
+              ++ concat (map ccomp_write (cg_comps g)) in
+  (any_instr (cg_comps g) = false -> cglyph_write g = Ok body) /\
+  (any_instr (cg_comps g) = true -> len (cg_instr g) <= 65535 ->
+     cglyph_write g = Ok (body ++ write_prim PU16 (len (cg_instr g)) ++ cg_instr g)) /\
+  (any_instr (cg_comps g) = true -> 65535 < len (cg_instr g) -> cglyph_write g = Err BadValue).
+Proof. exact composite_write_exact. Qed.
+Print Assumptions C15_composite_instructions_iff_flagged.
+
+Theorem C15_composite_flag_decision : forall cs, has_instructions cs = existsb flag_instr cs.
+Proof. exact has_instructions_any. Qed.
+Print Assumptions C15_composite_flag_decision.
+
+Theorem C15_too_wide_refused_composite : forall g,
+  (exists b, cglyph_write g = Ok b) \/
+  (cglyph_write g = Err BadValue /\ any_instr (cg_comps g) = true /\ 65535 < len (cg_instr g)).
+Proof. exact composite_write_total. Qed.
+Print Assumptions C15_too_wide_refused_composite.
+
+Theorem C15_composite_written_length : forall g b,
+  cglyph_write g = Ok b ->
+  len b = 2 + len (write_items false bounding_box_write (cg_bbox g)) + len (concat (map ccomp_write (cg_comps g)))
+          + (if any_instr (cg_comps g) then 2 + len (cg_instr g) else 0).
+Proof. exact composite_written_length. Qed.
+Print Assumptions C15_composite_written_length.
+
+(* whatever CompositeGlyph::read accepts, on ANY byte string, is in the round-trip domain *)
+Theorem C15_composite_read_is_normal : forall m c g c',
+  cgood c -> cglyph_read m c = Ok (g, c') ->
+  cg_ok g /\ cg_norm g = g /\ len (cg_instr g) <= 65535 /\ cgood c'.
+Proof. exact composite_read_normal. Qed.
+Print Assumptions C15_composite_read_is_normal.
+
+(* parse-write-parse for arbitrary parsable bytes (full, not partial) *)
+Theorem C15_composite_parse_write_parse : forall m c g c1,
+  cgood c -> glyph_read_full m c = Ok (GComposite g, c1) ->
+  exists b, cglyph_write g = Ok b /\
+    forall m2 c2 rest, cgood c2 -> at_bytes c2 (b ++ rest) ->
+      exists c3, glyph_read_full m2 c2 = Ok (GComposite g, c3) /\ advanced c2 c3 rest.
+Proof. exact composite_parse_write_parse. Qed.
+Print Assumptions C15_composite_parse_write_parse.
+
+(* Glyph::write / Glyph::read dispatch over both variants *)
+Theorem C15_glyph_roundtrip : forall m g b rest c,
+  glyph_ok_full g -> glyph_write_full g = Ok b -> cgood c -> at_bytes c (b ++ rest) ->
+  exists c', glyph_read_full m c = Ok (glyph_norm_full g, c') /\ advanced c c' rest.
+Proof. exact glyph_roundtrip. Qed.
+Print Assumptions C15_glyph_roundtrip.
+
+(* this reader and the C16 reader of composite glyphs (Model/GlyfOutline.v) are the same function *)
+Theorem C15_composite_readers_agree : forall m c,
+  cgood c ->
+  GO.read_composite (remaining c) = drop_ctx (fun g => map proj_comp (cg_comps g)) (cglyph_read m c).
+Proof. exact composite_readers_agree. Qed.
+Print Assumptions C15_composite_readers_agree.
+
+(* ----- the composite reader and writer inside the WOFF2 model (Model/Woff2.v, C11; not changed) are
+   the same functions *)
+From AV Require Import Proofs.CompositeAgreeWoff2.
+Theorem C15_composite_reader_agrees_woff2 : forall c,
+  cgood c ->
+  sim (proj_w2_loop false) (ccomps_read (S (length (remaining c))) c) (W2.read_composite_glyphs (remaining c)).
+Proof. exact composite_reader_agrees_woff2. Qed.
+Print Assumptions C15_composite_reader_agrees_woff2.
+
+Theorem C15_composite_writer_agrees_woff2 : forall m a b c d comps instr,
+  Forall comp_ok comps -> prim_in_range PI16 a = true -> prim_in_range PI16 b = true ->
+  prim_in_range PI16 c = true -> prim_in_range PI16 d = true ->
+  (any_instr comps = true -> len instr <= 65535) ->
+  W2.write_glyph m (W2.GComposite {| W2.bb_xmin := a; W2.bb_ymin := b; W2.bb_xmax := c; W2.bb_ymax := d |} (map proj_w2 comps) instr)
+  = cglyph_write {| cg_bbox := [a; b; c; d]; cg_comps := comps; cg_instr := instr |}.
+Proof. exact composite_writer_agrees_woff2. Qed.
+Print Assumptions C15_composite_writer_agrees_woff2.
+
+(* ----- non-vacuity and the limits of the domain *)
+(* WE_HAVE_INSTRUCTIONS (0x100) on the FIRST of two components only; words + xy args, MORE on the first *)
+Definition cg_ex : cglyph :=
+  {| cg_bbox := [0; -5; 10; 32767];
+     cg_comps := [ {| cc_flags := 291; cc_gid := 5; cc_arg1 := (AI16, 3453); cc_arg2 := (AI16, -1); cc_scale := None |};
+                   {| cc_flags := 70; cc_gid := 4; cc_arg1 := (AI8, -128); cc_arg2 := (AI8, 127); cc_scale := Some (CXY 16384 (-16384)) |} ];
+     cg_instr := [1; 2; 3] |}.
+Example cg_ex_ok : cg_ok cg_ex.
+Proof.
+  unfold cg_ok, cg_ex. cbn [cg_bbox cg_comps]. split; [cbn; repeat split; reflexivity|].
+  split; [|cbn; split; reflexivity].
+  repeat (apply Forall_cons; [unfold comp_ok, arg_ok, scale_ok, f2d14; cbn; repeat split; try reflexivity; try lia|]); apply Forall_nil.
+Qed.
+Example cg_ex_roundtrip :
+  cglyph_write cg_ex = Ok [255; 255; 0; 0; 255; 251; 0; 10; 127; 255; 1; 35; 0; 5; 13; 125; 255; 255;
+                           0; 70; 0; 4; 128; 127; 64; 0; 192; 0; 0; 3; 1; 2; 3] /\
+  exists c', glyph_read_full Debug (table_ctxt ([255; 255; 0; 0; 255; 251; 0; 10; 127; 255; 1; 35; 0; 5; 13; 125; 255; 255;
+                                                 0; 70; 0; 4; 128; 127; 64; 0; 192; 0; 0; 3; 1; 2; 3] ++ [9; 9]))
+             = Ok (GComposite cg_ex, c') /\ off c' = 33.
+Proof. vm_compute. split; [reflexivity|]. eexists. split; reflexivity. Qed.
+(* outside the domain: no component (written, unreadable); an argument variant that contradicts the
+   flags (written by its variant, read by the flags); MORE_COMPONENTS on the last component *)
+Example cg_outside_domain :
+  (cglyph_write {| cg_bbox := [0; 0; 0; 0]; cg_comps := []; cg_instr := [] |} = Ok [255; 255; 0; 0; 0; 0; 0; 0; 0; 0] /\
+   glyph_read_full Debug (table_ctxt [255; 255; 0; 0; 0; 0; 0; 0; 0; 0]) = Err Eof) /\
+  (cglyph_write {| cg_bbox := [0; 0; 0; 0];
+                   cg_comps := [ {| cc_flags := 2; cc_gid := 1; cc_arg1 := (AI16, 300); cc_arg2 := (AI16, 2); cc_scale := None |} ];
+                   cg_instr := [] |} = Ok [255; 255; 0; 0; 0; 0; 0; 0; 0; 0; 0; 2; 0; 1; 1; 44; 0; 2] /\
+   exists c', glyph_read_full Debug (table_ctxt [255; 255; 0; 0; 0; 0; 0; 0; 0; 0; 0; 2; 0; 1; 1; 44; 0; 2]) =
+     Ok (GComposite {| cg_bbox := [0; 0; 0; 0];
+                       cg_comps := [ {| cc_flags := 2; cc_gid := 1; cc_arg1 := (AI8, 1); cc_arg2 := (AI8, 44); cc_scale := None |} ];
+                       cg_instr := [] |}, c')) /\
+  (cglyph_write {| cg_bbox := [0; 0; 0; 0];
+                   cg_comps := [ {| cc_flags := 32; cc_gid := 1; cc_arg1 := (AU8, 1); cc_arg2 := (AU8, 2); cc_scale := None |} ];
+                   cg_instr := [] |} = Ok [255; 255; 0; 0; 0; 0; 0; 0; 0; 0; 0; 32; 0; 1; 1; 2] /\
+   glyph_read_full Debug (table_ctxt [255; 255; 0; 0; 0; 0; 0; 0; 0; 0; 0; 32; 0; 1; 1; 2]) = Err Eof).
+Proof. vm_compute. repeat split; try reflexivity. eexists; reflexivity. Qed.
+(* 65536 instruction bytes: refused when flagged, irrelevant (dropped) when not *)
+Example cg_instruction_length_limit :
+  cglyph_write {| cg_bbox := [0; 0; 0; 0];
+                  cg_comps := [ {| cc_flags := 256; cc_gid := 1; cc_arg1 := (AU8, 1); cc_arg2 := (AU8, 2); cc_scale := None |} ];
+                  cg_instr := repeat 7 (Z.to_nat 65536) |} = Err BadValue /\
+  cglyph_write {| cg_bbox := [0; 0; 0; 0];
+                  cg_comps := [ {| cc_flags := 0; cc_gid := 1; cc_arg1 := (AU8, 1); cc_arg2 := (AU8, 2); cc_scale := None |} ];
+                  cg_instr := repeat 7 (Z.to_nat 65536) |} = Ok [255; 255; 0; 0; 0; 0; 0; 0; 0; 0; 0; 0; 0; 1; 1; 2].
+Proof. vm_compute. split; reflexivity. Qed.
+
+(* ================================================================================================
+   cmap sub-tables and the cmap table (Model/CmapWrite.v, Proofs/CmapRoundtrip.v), on the C06 reader
+   model (Model/Cmap.v: `subtable`, `parse` = CmapSubtable::read, `parse_cmap` = Cmap::read).
+
+   Vocabulary.  `sub_write st` is BOTH the borrowed `CmapSubtable::write` and
+   `owned::CmapSubtable::write` (the same function of the parsed fields; tr_layouts.py compares the two
+   bodies on every run).  `sub_size st` = the number of bytes of the encoding, `sub_fits st` = every
+   count and the length fit the field they are stored in (format 4: at most 32767 segments and at most
+   65535 bytes; format 0 / 6: 65535 bytes, 65535 entries; formats 10 / 12: 32 bits).  `sub_wf st` =
+   a value the format can hold: fields within their widths, the four segment arrays of format 4
+   equally long, 256 entries in format 0; not format 2 (which has no writer).
+   `field16 b off` / `field32 b off` = the big-endian field at byte `off` of the written bytes.
+
+   Declared normalisations of the writers (nothing else): the length field is recomputed from what is
+   written; format 4: segCountX2, searchRange, entrySelector, rangeShift recomputed from the number of
+   start codes, reservedPad = 0; bytes after the arrays the length field covered are not kept; the
+   whole table is written with one private copy of the sub-table per record (shared sub-tables are
+   unshared) in record order, directly after the records. *)
+From AV Require Import Gen.CmapPrefs Model.MacRoman Model.Cmap Model.CmapSpec Model.CmapSubset Model.CmapWrite
+  Proofs.CmapRoundtrip.
+
+(* Ok => everything fits and the byte count is the size *)
+Theorem C15_cmap_sub_write_ok_size : forall st b,
+  sub_write st = Ok b -> sub_fits st /\ len b = sub_size st.
+Proof. exact sub_write_ok_size. Qed.
+Print Assumptions C15_cmap_sub_write_ok_size.
+
+(* Ok => the length field and every count field hold the true values (16-bit length of formats 0, 4,
+   6; segCountX2; entryCount; the 32-bit length, numChars, numGroups of formats 10, 12) — for ALL
+   values, whatever the array sizes *)
+Theorem C15_cmap_sub_fields_exact : forall st b,
+  sub_write st = Ok b ->
+  match st with
+  | F0 _ _ => field16 b 2 = len b
+  | F2 _ _ _ _ => True
+  | F4 _ _ s _ _ _ => field16 b 2 = len b /\ field16 b 6 = 2 * len s
+  | F6 _ _ g => field16 b 2 = len b /\ field16 b 8 = len g
+  | F10 _ _ g => field32 b 4 = len b /\ field32 b 16 = len g
+  | F12 _ gs => field32 b 4 = len b /\ field32 b 12 = len gs
+  end.
+Proof. exact sub_write_fields. Qed.
+Print Assumptions C15_cmap_sub_fields_exact.
+
+(* fits => written; does not fit => refused with BadValue (format 2: NotImplemented), nothing truncated.
+   In particular a format 4 sub-table of 65536 bytes or more (2 segments + 32752 glyph ids; 8190
+   segments) is refused *)
+Theorem C15_cmap_sub_fits_written : forall st, sub_fits st -> exists b, sub_write st = Ok b.
+Proof. exact sub_write_fits. Qed.
+Print Assumptions C15_cmap_sub_fits_written.
+Theorem C15_too_wide_refused_cmap_sub : forall st,
+  ~ sub_fits st ->
+  sub_write st = Err (match st with F2 _ _ _ _ => NotImplemented | _ => BadValue end).
+Proof. exact sub_write_refusal. Qed.
+Print Assumptions C15_too_wide_refused_cmap_sub.
+
+(* read after write, every format, whatever follows the sub-table *)
+Theorem C15_cmap_sub_roundtrip : forall st b rest,
+  sub_wf st -> sub_write st = Ok b -> parse (b ++ rest) = Ok st.
+Proof. exact sub_roundtrip. Qed.
+Print Assumptions C15_cmap_sub_roundtrip.
+
+(* whatever CmapSubtable::read accepts on ANY bytes is well-formed; formats 0 and 4 then always fit *)
+Theorem C15_cmap_sub_read_is_wf : forall d st,
+  bytes_ok d = true -> parse d = Ok st -> ~ is_f2 st -> sub_wf st.
+Proof. exact parse_sub_wf. Qed.
+Print Assumptions C15_cmap_sub_read_is_wf.
+
+(* parse-write-parse of sub-tables on arbitrary parsable bytes *)
+Theorem C15_cmap_sub_parse_write_parse : forall d st,
+  bytes_ok d = true -> parse d = Ok st -> ~ is_f2 st ->
+  (forall b rest, sub_write st = Ok b -> parse (b ++ rest) = Ok st) /\
+  (sub_fits st -> exists b, sub_write st = Ok b) /\
+  (~ sub_fits st -> sub_write st = Err BadValue) /\
+  match st with F0 _ _ | F4 _ _ _ _ _ _ => exists b, sub_write st = Ok b | _ => True end.
+Proof. exact sub_parse_write_parse. Qed.
+Print Assumptions C15_cmap_sub_parse_write_parse.
+
+Theorem C15_cmap_to_owned_parsed : forall d st,
+  bytes_ok d = true -> parse d = Ok st -> ~ is_f2 st -> to_owned st = Some st.
+Proof. exact to_owned_parsed. Qed.
+Print Assumptions C15_cmap_to_owned_parsed.
+
+(* the whole table: header, encoding records, true offsets, sub-tables *)
+Theorem C15_cmap_table_roundtrip : forall recs b,
+  Forall (fun r => u16 (cr_platform r) /\ u16 (cr_encoding r) /\ sub_wf (cr_sub r)) recs ->
+  cmap_write recs = Ok b ->
+  cmap_read_all b = Ok (mk_recs recs (table_offsets recs)).
+Proof. exact cmap_roundtrip. Qed.
+Print Assumptions C15_cmap_table_roundtrip.
+
+Theorem C15_cmap_table_exact : forall recs b,
+  cmap_write recs = Ok b ->
+  len recs <= 65535 /\ Forall (fun r => sub_fits (cr_sub r)) recs /\
+  Forall (fun o => 0 <= o <= 4294967295) (table_offsets recs) /\
+  exists subs, b = w16 0 ++ w16 (len recs) ++ write_records recs (table_offsets recs) ++ subs /\
+               len subs = subs_size recs /\ len b = 4 + 8 * len recs + subs_size recs.
+Proof. exact cmap_write_exact. Qed.
+Print Assumptions C15_cmap_table_exact.
+
+Theorem C15_too_wide_refused_cmap_table : forall recs,
+  (65535 < len recs -> cmap_write recs = Err BadValue) /\
+  ((exists b, cmap_write recs = Ok b) \/ cmap_write recs = Err BadValue \/ cmap_write recs = Err NotImplemented).
+Proof. intros recs. split; [apply cmap_write_too_many|apply cmap_write_total]. Qed.
+Print Assumptions C15_too_wide_refused_cmap_table.
+
+(* parse-write-parse of the whole table on arbitrary parsable bytes *)
+Theorem C15_cmap_table_parse_write_parse : forall d l crecs b,
+  bytes_ok d = true -> cmap_read_all d = Ok l -> owned_records l = Some crecs ->
+  cmap_write crecs = Ok b ->
+  cmap_read_all b = Ok (mk_recs crecs (table_offsets crecs)) /\
+  map cr_sub crecs = map snd l /\
+  map cr_platform crecs = map (fun x => er_platform (fst x)) l /\
+  map cr_encoding crecs = map (fun x => er_encoding (fst x)) l.
+Proof. exact cmap_parse_write_parse. Qed.
+Print Assumptions C15_cmap_table_parse_write_parse.
+
+(* this writer and the C08 model of the owned writer agree where both apply *)
+Theorem C15_cmap_writer_agrees_C08 : forall m st,
+  match st with
+  | F0 _ g => len g = 256
+  | F4 _ _ s _ _ _ => 1 <= len s <= 32767
+  | F12 _ _ => True
+  | _ => False
+  end ->
+  write_subtable m st = sub_write st.
+Proof. exact sub_write_agrees_C08. Qed.
+Print Assumptions C15_cmap_writer_agrees_C08.
+
+(* ----- non-vacuity: the 65535 / 65536 byte boundary of format 4, both shapes; no segment at all *)
+Definition zeros (n : Z) : list Z := repeat 0 (Z.to_nat n).
+Lemma len_zeros n : 0 <= n -> len (zeros n) = n.
+Proof. intros H. unfold zeros, len. rewrite repeat_length. lia. Qed.
+(* with C15_cmap_sub_fits_written / C15_too_wide_refused_cmap_sub: written resp. refused *)
+Example cmap_f4_boundary :
+  (* 2 segments + 32751 glyph ids = 65534 bytes: fits *)
+  sub_fits (F4 0 [10; 65535] [5; 65535] [0; 1] [4; 0] (zeros 32751)) /\
+  sub_size (F4 0 [10; 65535] [5; 65535] [0; 1] [4; 0] (zeros 32751)) = 65534 /\
+  (* 2 segments + 32752 glyph ids = 65536 bytes; + 32818: do not fit *)
+  ~ sub_fits (F4 0 [10; 65535] [5; 65535] [0; 1] [4; 0] (zeros 32752)) /\
+  ~ sub_fits (F4 0 [10; 65535] [5; 65535] [0; 1] [4; 0] (zeros 32818)) /\
+  (* 8189 segments = 65528 bytes: fits; 8190 segments = 65536 bytes: does not *)
+  sub_fits (F4 0 (zeros 8189) (zeros 8189) (zeros 8189) (zeros 8189) []) /\
+  ~ sub_fits (F4 0 (zeros 8190) (zeros 8190) (zeros 8190) (zeros 8190) []) /\
+  (* 32768 segments: segCountX2 does not fit *)
+  ~ sub_fits (F4 0 [] (zeros 32768) [] [] []) /\
+  (* no segment: readable, hence writable (fix 3bafcbb) *)
+  parse [0; 4; 0; 16; 0; 0; 0; 0; 0; 0; 0; 0; 0; 0; 0; 0] = Ok (F4 0 [] [] [] [] []) /\
+  sub_write (F4 0 [] [] [] [] []) = Ok [0; 4; 0; 16; 0; 0; 0; 0; 0; 0; 0; 0; 0; 0; 0; 0].
+Proof.
+  cbn [sub_fits sub_size].
+  rewrite !len_zeros by lia.
+  change (len [10; 65535]) with 2. change (len [5; 65535]) with 2. change (len [0; 1]) with 2. change (len [4; 0]) with 2.
+  change (len (@nil Z)) with 0.
+  repeat split; try lia; vm_compute; reflexivity.
+Qed.
+Example cmap_table_example :
+  cmap_write [ {| cr_platform := 3; cr_encoding := 1; cr_sub := F4 0 [65535] [65535] [1] [0] [] |};
+               {| cr_platform := 0; cr_encoding := 3; cr_sub := F6 0 5 [1; 2; 3] |} ]
+  = Ok [0;0; 0;2; 0;3; 0;1; 0;0;0;20; 0;0; 0;3; 0;0;0;44;
+        0;4; 0;24; 0;0; 0;2; 0;2; 0;0; 0;0; 255;255; 0;0; 255;255; 0;1; 0;0;
+        0;6; 0;16; 0;0; 0;5; 0;3; 0;1; 0;2; 0;3] /\
+  table_offsets [ {| cr_platform := 3; cr_encoding := 1; cr_sub := F4 0 [65535] [65535] [1] [0] [] |};
+                  {| cr_platform := 0; cr_encoding := 3; cr_sub := F6 0 5 [1; 2; 3] |} ] = [20; 44].
+Proof. vm_compute. split; reflexivity. Qed.
+(* the well-formedness hypothesis is needed: segment arrays of different lengths are written as they
+   are and read back as a different sub-table *)
+Example cmap_f4_unequal_arrays :
+  exists b, sub_write (F4 0 [7] [1; 2] [0; 0] [0; 0] []) = Ok b /\ parse b <> Ok (F4 0 [7] [1; 2] [0; 0] [0; 0] []).
+Proof. eexists. split; [vm_compute; reflexivity|]. vm_compute. discriminate. Qed.
+
+(* ----- obligations on the current source (Gen/GlyfCmapShapes.v is regenerated by tr_glyfcmap.py from
+   src/tables/glyf.rs and src/tables/cmap.rs on every run; Gen/GlyfConsts.v by tr_glyf.py) *)
+From AV Require Import Gen.GlyfCmapShapes.
+Theorem C15_glyf_cmap_writers_declared :
+  (* the composite flag word: bit values, the truncation mask, what the accessors test — as declared
+     in the OpenType glyf chapter, and as the model (through Gen/GlyfConsts.v) uses them *)
+  [cgf_arg_1_and_2_are_words; cgf_args_are_xy_values; cgf_round_xy_to_grid; cgf_we_have_a_scale; cgf_more_components;
+   cgf_we_have_an_x_and_y_scale; cgf_we_have_a_two_by_two; cgf_we_have_instructions; cgf_use_my_metrics;
+   cgf_overlap_compound; cgf_scaled_component_offset; cgf_unscaled_component_offset]
+  = [1; 2; 4; 8; 32; 64; 128; 256; 512; 1024; 2048; 4096] /\
+  cgf_all = 8175 /\ CF_ALL = cgf_all /\
+  [cgf_test_arg_1_and_2_are_words; cgf_test_args_are_xy_values; cgf_test_we_have_a_scale;
+   cgf_test_we_have_an_x_and_y_scale; cgf_test_we_have_a_two_by_two; cgf_test_more_components; cgf_test_we_have_instructions]
+  = [cf_arg_1_and_2_are_words; cf_args_are_xy_values; cf_we_have_a_scale; cf_we_have_an_x_and_y_scale;
+     cf_we_have_a_two_by_two; cf_more_components; cf_we_have_instructions] /\
+  [cf_arg_1_and_2_are_words; cf_args_are_xy_values; cf_we_have_a_scale; cf_we_have_an_x_and_y_scale;
+   cf_we_have_a_two_by_two; cf_more_components; cf_we_have_instructions] = [1; 2; 8; 64; 128; 32; 256] /\
+  scale_tests = [(8, KScale); (64, KXY); (128, KMatrix)] /\
+  (arg_kind true true, arg_kind true false, arg_kind false true, arg_kind false false) = (AI16, AU16, AI8, AU8) /\
+  cgw_number_of_contours = -1 /\
+  (* the cmap writers: format word, width of the (back-patched, checked) length field, width of the
+     (checked) count field; the segment limit; the reader's format 0 / format 4 constants *)
+  cmw_formats = [(0, PU16, None); (4, PU16, None); (6, PU16, Some PU16); (10, PU32, Some PU32); (12, PU32, Some PU32)] /\
+  cmw_max_segments = 32767 /\ cmr_f0_entries = 256 /\ cmr_f0_min_length = 262 /\ cmr_f4_header_words = (8, 4).
+Proof. vm_compute. repeat split; reflexivity. Qed.
+Print Assumptions C15_glyf_cmap_writers_declared.
